@@ -85,7 +85,7 @@ def profile(prop, g):
         kw.update(p_doc=0.85, layout=g.choice([1, 2, 2]), max_items=5, p_docimpl=g.choice([0, 0, 0.4]), p_stale=g.choice([0, 0, 0.3]))
     elif prop == 'C02':
         kw.update(max_depth=4, layout=g.choice([1, 2, 2]), malformed=g.choice([0, 0, 0, 0.15]), p_docimpl=g.choice([0, 0, 0.4]),
-                  p_dup=g.choice([0, 0.35]), p_stale=g.choice([0, 0, 0, 0.25]), weights={'dangling': 1.5, 'generic': 2.0, 'blk': 1.5})
+                  p_dup=g.choice([0, 0.35]), p_stale=g.choice([0, 0, 0, 0.25]), same_line=g.choice([0, 0, 0.3]), weights={'dangling': 1.5, 'generic': 2.0, 'blk': 1.5})
     elif prop == 'C03':
         kw.update(max_depth=4, p_docimpl=g.choice([0, 0, 0.4]), weights={'func': 3, 'macro': 3, 'cpa': 4, 'blk': 2, 'member': 2, 'cttest': 1.5, 'class': 1.5,
                                         'set': 0.3, 'option': 0.3, 'add_test': 0.3, 'generic': 0.5, 'dangling': 0.3})
@@ -107,7 +107,7 @@ def profile(prop, g):
         kw.update(weights={'cttest': 5, 'section': 5, 'add_test': 5, 'func': 0.5, 'class': 0.3, 'set': 0.3}, p_doc=0.6, max_depth=4,
                   malformed=g.choice([0, 0, 0.15]), p_docimpl=g.choice([0, 0, 0.4]), p_stale=g.choice([0, 0, 0, 0.25]))
     elif prop == 'C04':
-        kw.update(layout=2, max_items=5)
+        kw.update(layout=2, max_items=5, same_line=g.choice([0, 0.25]))
     elif prop == 'C05':
         kw.update(layout=2, p_doc=0.3, weights={'generic': 4, 'set': 2, 'blk': 2})
     elif prop == 'C07':
@@ -129,6 +129,7 @@ def compare_case(prop, m, cfg, src, model, real):
     dis = vio = None
     wf, why = GM.well_formed(m)
     tags.append('wf' if wf else 'malformed:' + str(why).split(':')[0])
+    if not wf and GM.well_formed(m, positional=True)[0]: wf = True; tags.append('wf-with-positional-add_test')
     # --- correspondence under the projection
     if ('err' in model) != ('err' in real):
         dis = dict(kind='error-status', model=model if 'err' in model else 'ok', real=real if 'err' in real else 'ok')
@@ -150,8 +151,10 @@ def compare_case(prop, m, cfg, src, model, real):
             vio = dict(kind='well-formed module rejected', real=real)
         else:
             exp_rst = oracle.expected_rst(spec, 'T', 'M', '#')
-            pe = oracle.project(prop, oracle.neutralise(exp_rst), spec)
-            pr = oracle.project(prop, oracle.neutralise(real['rst']), real['entries'])
+            e_rst, e_ent = oracle.loosen(oracle.neutralise(exp_rst), spec, spec)
+            r_rst, r_ent = oracle.loosen(oracle.neutralise(real['rst']), real['entries'], spec)
+            pe = oracle.project(prop, e_rst, e_ent)
+            pr = oracle.project(prop, r_rst, r_ent)
             if pe != pr:
                 vio = dict(kind='output differs from what the module prescribes', expected=pe, real=pr)
     elif not wf and not has_crlf_doc(m) and GM.well_formed(m, documented_impl=True)[0]:
